@@ -47,3 +47,258 @@ Theorem C12_header_accepted_size : forall bs h rest, parse_header bs = Some (h, 
   lenN (ser_header false h) + lenN rest = lenN bs.
 Proof. exact header_accepted_size. Qed.
 Print Assumptions C12_header_accepted_size.
+
+(* ---------- PSET v0 decoder (model: Model/PsetV0.v, proofs: Proofs/PsetV0Dec.v) ----------
+   v0_parse_rest is deserialize(r io.Reader) as a stream parser (packet, unread bytes); v0_parse is
+   NewPsetFromHex / NewPsetFromBase64, which never look at the bytes left in the reader;
+   valid_pk / valid_sig are the external btcec predicates, arbitrary here. *)
+From GE Require Import Model.PsetV0 Proofs.PsetV0Dec.
+
+(* acceptance is stable under extension of the input (the section loop's fuel included) *)
+Theorem C12_psetv0_decoder_stable : forall valid_pk valid_sig bs p rest ext,
+  v0_parse_rest valid_pk valid_sig bs = Some (p, rest) ->
+  v0_parse_rest valid_pk valid_sig (bs ++ ext) = Some (p, rest ++ ext).
+Proof. exact psetv0_decoder_stable. Qed.
+Print Assumptions C12_psetv0_decoder_stable.
+
+Theorem C12_psetv0_whole_input_ignores_tail : forall valid_pk valid_sig bs p ext,
+  v0_parse valid_pk valid_sig bs = Some p -> v0_parse valid_pk valid_sig (bs ++ ext) = Some p.
+Proof. exact psetv0_whole_input_ignores_tail. Qed.
+Print Assumptions C12_psetv0_whole_input_ignores_tail.
+
+(* no strict prefix of what ToHex / ToBase64 write is accepted by the whole-input decoder *)
+Theorem C12_psetv0_strict_prefix_rejected : forall valid_pk valid_sig p bs pre suf,
+  v0_wf valid_pk valid_sig p = true -> v0_ser p = Some bs -> bs = pre ++ suf -> suf <> [] ->
+  v0_parse valid_pk valid_sig pre = None.
+Proof. exact psetv0_strict_prefix_rejected. Qed.
+Print Assumptions C12_psetv0_strict_prefix_rejected.
+
+(* more generally, an input that the stream decoder consumes entirely has no accepted strict prefix *)
+Theorem C12_psetv0_no_strict_prefix_of_complete : forall valid_pk valid_sig bs p pre suf,
+  v0_parse_rest valid_pk valid_sig bs = Some (p, []) -> bs = pre ++ suf -> suf <> [] ->
+  v0_parse_rest valid_pk valid_sig pre = None /\ v0_parse valid_pk valid_sig pre = None.
+Proof. exact psetv0_no_strict_prefix_of_complete. Qed.
+Print Assumptions C12_psetv0_no_strict_prefix_of_complete.
+
+Theorem C12_psetv0_valid_encoding_consumed : forall valid_pk valid_sig p bs,
+  v0_wf valid_pk valid_sig p = true -> v0_ser p = Some bs ->
+  v0_parse_rest valid_pk valid_sig bs = Some (v0_norm p, []).
+Proof. exact psetv0_valid_encoding_consumed. Qed.
+Print Assumptions C12_psetv0_valid_encoding_consumed.
+
+(* every length field is compared with its cap and with the remaining input before bytes are taken *)
+Theorem C12_psetv0_key_bounded : forall bs k r, v0_p_key bs = Some (Some k, r) ->
+  1 <= lenN k /\ lenN k <= v0_MaxKeyLen /\ lenN k < lenN bs /\
+  exists n r0, p_varint bs = Some (n, r0) /\ n = lenN k /\ n <= lenN r0.
+Proof. exact psetv0_key_bounded. Qed.
+Print Assumptions C12_psetv0_key_bounded.
+
+Theorem C12_psetv0_value_bounded : forall bs v r, v0_p_val bs = Some (v, r) ->
+  lenN v <= v0_MaxValLen /\ lenN v < lenN bs /\
+  exists n r0, p_varint bs = Some (n, r0) /\ n = lenN v /\ n <= lenN r0.
+Proof. exact psetv0_value_bounded. Qed.
+Print Assumptions C12_psetv0_value_bounded.
+
+Theorem C12_psetv0_key_length_checked : forall n r, n < two64 ->
+  v0_MaxKeyLen < n \/ lenN r < n -> v0_p_key (varint n ++ r) = None.
+Proof. exact psetv0_key_length_checked. Qed.
+Print Assumptions C12_psetv0_key_length_checked.
+
+Theorem C12_psetv0_value_length_checked : forall n r, n < two64 ->
+  v0_MaxValLen < n \/ lenN r < n -> v0_p_val (varint n ++ r) = None.
+Proof. exact psetv0_value_length_checked. Qed.
+Print Assumptions C12_psetv0_value_length_checked.
+
+(* what is accepted was consumed from the front of the input; the unread bytes are a proper suffix *)
+Theorem C12_psetv0_consumed_prefix : forall valid_pk valid_sig bs p rest,
+  v0_parse_rest valid_pk valid_sig bs = Some (p, rest) -> exists used, bs = used ++ rest /\ lenN rest < lenN bs.
+Proof. exact psetv0_consumed_prefix. Qed.
+Print Assumptions C12_psetv0_consumed_prefix.
+
+(* ---------- PSET v2 (model: Model/PsetV2.v; parse_pset_rest also returns the bytes left unread in the
+   bytes.Buffer; parse_pset = NewPsetFromBuffer / NewPsetFromBase64 after base64 decoding, which drop them) ---------- *)
+From GE Require Import Model.PsetV2 Proofs.PsetV2 Proofs.PsetV2Ex Proofs.PsetV2Inv Proofs.PsetV2Dec.
+
+Theorem C12_psetv2_whole_input_decoder : forall pk der xo canon bs p,
+  parse_pset pk der xo canon bs = ROk p <-> exists rest, parse_pset_rest pk der xo canon bs = ROk (p, rest).
+Proof. exact parse_pset_accepts. Qed.
+Print Assumptions C12_psetv2_whole_input_decoder.
+
+(* (a) acceptance is stable under extension of the input *)
+Theorem C12_psetv2_decoder_stable : forall pk der xo canon bs p r ext,
+  parse_pset_rest pk der xo canon bs = ROk (p, r) -> parse_pset_rest pk der xo canon (bs ++ ext) = ROk (p, r ++ ext).
+Proof. exact psetv2_parse_stable. Qed.
+Print Assumptions C12_psetv2_decoder_stable.
+
+(* ... and depends on the consumed bytes only *)
+Theorem C12_psetv2_consumed_exact : forall pk der xo canon bs p rest,
+  parse_pset_rest pk der xo canon bs = ROk (p, rest) ->
+  exists c, bs = c ++ rest /\ forall r', parse_pset_rest pk der xo canon (c ++ r') = ROk (p, r').
+Proof. exact psetv2_consumed_exact. Qed.
+Print Assumptions C12_psetv2_consumed_exact.
+
+(* (b) the whole-input decoder never looks at what follows the last output section (pset.go deserialize
+   has no end-of-buffer test): an accepted input stays accepted with the same packet whatever is appended.
+   So the literal "accepts bs => rejects every strict prefix of bs" is false of it (witness below); what
+   holds is: no prefix that stops short of the consumed bytes is accepted, in particular an input consumed
+   completely has no accepted strict prefix, and no strict prefix of the serialization of a well-formed
+   packet is accepted.  The parser never panics, so "not accepted" is "rejected with an error". *)
+Theorem C12_psetv2_trailing_ignored : forall pk der xo canon bs p ext,
+  parse_pset pk der xo canon bs = ROk p -> parse_pset pk der xo canon (bs ++ ext) = ROk p.
+Proof. exact psetv2_trailing_ignored. Qed.
+Print Assumptions C12_psetv2_trailing_ignored.
+
+Theorem C12_psetv2_strict_prefix_literal_refuted :
+  exists bs pre suf p, parse_pset o_true o_true o_true o_id bs = ROk p /\ bs = pre ++ suf /\ suf <> [] /\
+                       parse_pset o_true o_true o_true o_id pre = ROk p.
+Proof. exact psetv2_strict_prefix_literal_refuted. Qed.
+Print Assumptions C12_psetv2_strict_prefix_literal_refuted.
+
+Theorem C12_psetv2_short_prefix_rejected : forall pk der xo canon bs p rest pre suf,
+  parse_pset_rest pk der xo canon bs = ROk (p, rest) -> bs = pre ++ suf -> (length rest < length suf)%nat ->
+  parse_pset pk der xo canon pre = RErr.
+Proof. exact psetv2_short_prefix_rejected. Qed.
+Print Assumptions C12_psetv2_short_prefix_rejected.
+
+Theorem C12_psetv2_strict_prefix_rejected : forall pk der xo canon bs p pre suf,
+  parse_pset_rest pk der xo canon bs = ROk (p, []) -> bs = pre ++ suf -> suf <> [] ->
+  parse_pset pk der xo canon pre = RErr.
+Proof. exact psetv2_strict_prefix_rejected. Qed.
+Print Assumptions C12_psetv2_strict_prefix_rejected.
+
+Theorem C12_psetv2_ser_strict_prefix_rejected : forall pk der xo canon p bs pre suf,
+  wf_pset pk der xo canon p = true -> ser_pset p = ROk bs -> bs = pre ++ suf -> suf <> [] ->
+  parse_pset pk der xo canon pre = RErr.
+Proof. exact psetv2_ser_strict_prefix_rejected. Qed.
+Print Assumptions C12_psetv2_ser_strict_prefix_rejected.
+
+Theorem C12_psetv2_no_panic : forall pk der xo canon bs, parse_pset pk der xo canon bs <> RPanic.
+Proof. exact parse_pset_no_panic. Qed.
+Print Assumptions C12_psetv2_no_panic.
+
+(* (c) sizes: the serialization of a well-formed packet is consumed exactly; for an arbitrary accepted
+   input the re-serialization of the packet is consumed exactly (premise pset_ext of C07); bytes consumed
+   and length of the re-serialization differ in general, in both directions (always-written fields that
+   the input omitted; zero values and ignored key data that the input carried) *)
+Theorem C12_psetv2_accepted_size : forall pk der xo canon p bs rest,
+  wf_pset pk der xo canon p = true -> ser_pset p = ROk bs ->
+  parse_pset_rest pk der xo canon (bs ++ rest) = ROk (norm_pset p, rest).
+Proof. exact psetv2_accepted_size. Qed.
+Print Assumptions C12_psetv2_accepted_size.
+
+Theorem C12_psetv2_reser_size : forall pk der xo canon bs p rest,
+  parse_pset_rest pk der xo canon bs = ROk (p, rest) -> pset_ext pk canon p ->
+  exists bs', ser_pset p = ROk bs' /\ forall r', parse_pset_rest pk der xo canon (bs' ++ r') = ROk (norm_pset p, r').
+Proof. exact psetv2_reser_size. Qed.
+Print Assumptions C12_psetv2_reser_size.
+
+Theorem C12_psetv2_size_not_preserved :
+  size_check (ex_stream_sparse []) true = true /\
+  exists extra, size_check (ex_stream_sparse extra) false = true.
+Proof. split; [exact ex_reser_longer | eexists; exact ex_reser_shorter]. Qed.
+Print Assumptions C12_psetv2_size_not_preserved.
+
+(* every key pair handed to a section decoder was checked against the bytes present and the key-length limit *)
+Theorem C12_psetv2_keypair_bounded : forall bs k r, read_kp bs = KGot k r -> bs = ser_kp k ++ r /\ frame_ok k = true.
+Proof. exact read_kp_got. Qed.
+Print Assumptions C12_psetv2_keypair_bounded.
+
+(* ---------- merkle blocks (block.NewMerkleBlockFromBuffer / FromHex, MerkleBlock.ExtractMatches) ---------- *)
+From GE Require Import Lib.Sha256 Model.Merkle Model.MerkleIx Proofs.MerkleDecoder.
+
+(* acceptance of the blob parser is stable under extension of the input *)
+Theorem C12_merkle_decoder_stable : forall bs m r s,
+  parse_merkle_block bs = Some (m, r) -> parse_merkle_block (bs ++ s) = Some (m, r ++ s).
+Proof. exact stable_parse_merkle_block. Qed.
+Print Assumptions C12_merkle_decoder_stable.
+
+(* the whole-input decoder leaves trailing bytes in the buffer, unlooked at ... *)
+Theorem C12_merkle_decode_ignores_trailing : forall m rest,
+  wf_mb m -> decode_merkle_block (ser_merkle_block m ++ rest) = Some m.
+Proof. exact decode_ignores_trailing. Qed.
+Print Assumptions C12_merkle_decode_ignores_trailing.
+
+(* ... accepts only inputs that start with the complete encoding of what it returns ... *)
+Theorem C12_merkle_accepted_is_complete : forall bs m,
+  decode_merkle_block bs = Some m -> exists rest, bs = ser_merkle_block m ++ rest /\ wf_mb m.
+Proof. exact decode_accepts_complete. Qed.
+Print Assumptions C12_merkle_accepted_is_complete.
+
+(* ... and so rejects every strict prefix of a valid encoding *)
+Theorem C12_merkleblock_strict_prefix_rejected : forall m pre suf,
+  wf_mb m -> ser_merkle_block m = pre ++ suf -> suf <> [] -> decode_merkle_block pre = None.
+Proof. exact merkleblock_strict_prefix_rejected. Qed.
+Print Assumptions C12_merkleblock_strict_prefix_rejected.
+
+(* an accepted value occupies exactly the bytes consumed: both counts are backed by input *)
+Theorem C12_merkle_accepted_size : forall bs m r,
+  parse_merkle_block bs = Some (m, r) ->
+  84 + varint_size (lenL (mb_hashes m)) + 32 * lenL (mb_hashes m) +
+  varint_size (lenN (mb_flags m)) + lenN (mb_flags m) + lenN r = lenN bs.
+Proof. exact merkleblock_accepted_size. Qed.
+Print Assumptions C12_merkle_accepted_size.
+
+(* counts are compared with their caps before anything is reserved *)
+Theorem C12_merkle_hash_count_checked : forall hd cnt nh r,
+  length hd = 80%nat -> cnt < two32 -> nh < two64 -> wire_max_hashes < nh ->
+  parse_merkle_block (hd ++ le_enc 4 cnt ++ varint nh ++ r) = None /\
+  alloc_merkle_block (hd ++ le_enc 4 cnt ++ varint nh ++ r) = 0.
+Proof. exact merkle_hash_count_checked. Qed.
+Print Assumptions C12_merkle_hash_count_checked.
+
+Theorem C12_merkle_flag_count_checked : forall m nf r,
+  wf_mb m -> nf < two64 -> wire_max_flags < nf ->
+  let bs := mb_header m ++ le_enc 4 (mb_count m) ++ varint (lenL (mb_hashes m)) ++ concat (mb_hashes m) ++ varint nf ++ r in
+  parse_merkle_block bs = None /\ alloc_merkle_block bs = 40 * lenL (mb_hashes m).
+Proof. exact merkle_flag_count_checked. Qed.
+Print Assumptions C12_merkle_flag_count_checked.
+
+(* memory requested: proportional to the input when accepted, constant + proportional always *)
+Theorem C12_merkle_alloc_accepted : forall bs m r,
+  parse_merkle_block bs = Some (m, r) ->
+  alloc_merkle_block bs = 96 * lenL (mb_hashes m) + 9 * lenN (mb_flags m) /\
+  alloc_merkle_block bs <= 9 * lenN bs.
+Proof. exact alloc_accepted_proportional. Qed.
+Print Assumptions C12_merkle_alloc_accepted.
+
+Theorem C12_merkle_alloc_bounded : forall bs, alloc_merkle_block bs <= alloc_const_bound + 9 * lenN bs.
+Proof. exact alloc_bounded. Qed.
+Print Assumptions C12_merkle_alloc_bounded.
+
+(* "a small multiple of the input length" does NOT hold for rejected inputs: btcd caps the hash
+   count by a constant, not by the bytes present; 89 bytes reserve 16 MB and are then refused *)
+Theorem C12_merkle_alloc_proportional_refuted :
+  lenN greedy_blob = 89 /\ decode_merkle_block greedy_blob = None /\ alloc_merkle_block greedy_blob = 16000040.
+Proof. exact alloc_proportional_refuted. Qed.
+Print Assumptions C12_merkle_alloc_proportional_refuted.
+
+(* ExtractMatches with its cursors as indices and every index expression partial: it computes what the
+   model of C20 computes, so it ends in a value or an error, never in an index out of range *)
+Theorem C12_merkle_extract_ix_refines : forall (A : Type) (H : A -> A -> A) (eqA : A -> A -> bool) n hashes vbits,
+  extract_ix A H eqA n hashes vbits =
+  match extract A H eqA n hashes vbits with Some r => IxOk r | None => IxErr end.
+Proof. exact extract_ix_refines. Qed.
+Print Assumptions C12_merkle_extract_ix_refines.
+
+Theorem C12_merkleblock_extract_no_panic : forall bs, decode_extract_ix bs <> IxPanic.
+Proof. exact decode_extract_no_panic. Qed.
+Print Assumptions C12_merkleblock_extract_no_panic.
+
+Theorem C12_merkle_extract_no_panic_any_tree : forall (A : Type) (H : A -> A -> A) (eqA : A -> A -> bool) n hashes vbits,
+  extract_ix A H eqA n hashes vbits <> IxPanic.
+Proof. exact extract_ix_no_panic. Qed.
+Print Assumptions C12_merkle_extract_no_panic_any_tree.
+
+(* the decoder of this file is the one the correspondence check of C20 runs against the implementation *)
+Theorem C12_merkle_decode_extract_is_run_proof : forall bs,
+  decode_extract_ix bs =
+  match run_proof bs with PParseErr => IxErr | PExtractErr _ => IxErr | POk _ root ms => IxOk (root, ms) end.
+Proof. exact decode_extract_is_run_proof. Qed.
+Print Assumptions C12_merkle_decode_extract_is_run_proof.
+
+(* the guard in front of TxHashes[hashUsed] is what the theorem rests on: weaken it (seeded change
+   hashUsed > len) and the same walk indexes out of range *)
+Theorem C12_merkle_weaker_guard_panics :
+  extract_gen bytes node_hash bytes_eqb Nat.ltb 1 [] (bits_of_bytes [x00]) = IxPanic.
+Proof. exact weaker_guard_panics. Qed.
+Print Assumptions C12_merkle_weaker_guard_panics.
